@@ -64,6 +64,15 @@ Proof. exact (healthy_delivery_precedes_read sA sB lA delivered delta gdel sigma
 Theorem c08_merge_keeps_newest t cur en r : nf_merge t cur en = Some r -> cur = Some r \/ r = en.
 Proof. exact (nf_merge_cases t cur en r). Qed.
 
+(* A delivered entry is merged: after gossip delivers an unexpired entry (a single message, or any one entry of a
+   multi-entry full-state exchange on join / push-pull), the instance holds that entry or a newer one for the
+   integration, so its next dedup read is covered by it.  The cluster runs check this on the real log atomically
+   with every delivery. *)
+Theorem c08_delivered_entry_is_merged cfg c i t k en c' o :
+  cstep cfg c i t (CDeliver k en) = Some (c', o) -> t <= n_exp en ->
+  exists s' r, c_inst c' !! i = Some s' /\ s_nflog s' !! k = Some (Some r) /\ n_ts en <= n_ts r.
+Proof. exact (delivered_entry_is_merged cfg c i t k en c' o). Qed.
+
 (* ---- non-vacuity: two instances; B (position 1) receives A's entry during its cluster wait and stays silent;
         then A crashes and B, partitioned, sends the repeat itself ---- *)
 Definition ex_cfg := mkG 30 300 1000 320 100000 [mkI true].
@@ -126,3 +135,4 @@ Qed.
 Print Assumptions c08_entries_come_from_sends.
 Print Assumptions c08_silent_only_if_another_instance_sent.
 Print Assumptions c08_covering_entry_silences.
+Print Assumptions c08_delivered_entry_is_merged.
